@@ -3,6 +3,7 @@
 #endif /* HAVE_CONFIG_H */
 
 #include "std.h"
+#include <limits.h>
 #include "rc.h"
 #include "comm.h"
 #include "qsort.h"
@@ -1463,7 +1464,7 @@ void eval_instruction (const char *p) {
                 /* push hidden iterator */
                 (++sp)->type = T_NUMBER;
                 sp->u.lvalue_byte = (unsigned char *) ((sp - 1)->u.string);
-                sp->subtype = (unsigned short)SVALUE_STRLEN (sp - 1);
+                sp->subtype = 0;	/* not a counter: a 16-bit field cannot count the characters, the iteration ends at the NUL */
               }
             else /* array */
               {
@@ -1516,10 +1517,10 @@ void eval_instruction (const char *p) {
                * and advance iterator by the multibyte character length.
                * Otherwise, return next character as number and advance iterator by 1.
                */
-              if ((sp - 1)->subtype != 0)
+              if (*(sp - 1)->u.lvalue_byte != '\0')
                 {
                   wchar_t wc;
-                  int char_len = mbtowc (&wc, (char *)(sp - 1)->u.lvalue_byte, (sp - 1)->subtype);
+                  int char_len = mbtowc (&wc, (char *)(sp - 1)->u.lvalue_byte, MB_LEN_MAX);
                   if (char_len > 1)
                     {
                       /* Multibyte UTF-8 character - return the Unicode code point */
@@ -1538,11 +1539,8 @@ void eval_instruction (const char *p) {
                       sp->u.lvalue->u.number = c;
                     }
                   mbtowc (NULL, NULL, 0); /* reset conversion state */
-                  /* Decrement bytes remaining and continue loop */
-                  if (char_len > 0)
-                    (sp - 1)->subtype -= (short)char_len;
                   COPY_SHORT (&offset, pc);
-                  pc -= offset; /* repeat loop - will check subtype at next iteration */
+                  pc -= offset; /* repeat loop - the end of the string is checked at the next iteration */
                   break;
                 }
             }
